@@ -69,6 +69,9 @@ def optGt (o : Option Int) (k : Int) : Bool :=
   | some v => decide (v > k)
   | none => false
 
+/-- `x if x is None else min(x, sys.maxsize)` (rrule.py, `__getitem__`): islice rejects larger bounds, a list slice accepts them -/
+def clampMax (o : Option Int) : Option Int := o.map (fun v => if v > maxsize then maxsize else v)
+
 /-- the walk of `islice` over the values of the iterable: `cnt` = position of the head of the
     list, `nexti` = next position to emit. -/
 def isliceGo (stop : Option Nat) (step : Nat) : List Int → Nat → Nat → List Int
@@ -155,7 +158,7 @@ def gen : Query → List Int → Res
     else .ofR (getIdx xs i)                            -- line 173: list(iter(self))[item]
   | .slice a b c, xs =>
     if sliceListPath a b c then .ofRL (Py.slice xs a b c)   -- line 158
-    else .ofRL (islice xs a b c)                            -- lines 160-163
+    else .ofRL (islice xs (clampMax a) (clampMax b) (clampMax c))   -- `min(x, sys.maxsize)` for each bound, then islice
   | .contains x, xs => .bool (containsLoop x xs)
   | .count, xs => .nat xs.length                       -- `for x in self: pass; return self._len`
   | .before t inc, xs => .val (beforeLoop t inc xs none)
@@ -184,7 +187,7 @@ def stops : Query → List Int → Bool
   | .index i, ys => decide (i ≥ 0) && decide (i.toNat + 1 ≤ ys.length)
   | .slice a b c, ys =>
     !sliceListPath a b c &&
-      (match isliceNeeds a b with | some n => decide (n ≤ ys.length) | none => false)
+      (match isliceNeeds (clampMax a) (clampMax b) with | some n => decide (n ≤ ys.length) | none => false)
   | .contains x, ys => ys.any (fun i => decide (i ≥ x))
   | .count, _ => false
   | .before t inc, ys => ys.any (fun i => if inc then decide (i > t) else decide (i ≥ t))
@@ -196,13 +199,20 @@ def stops : Query → List Int → Bool
      | none => false)
   | .between _ b inc, ys => ys.any (fun i => if inc then decide (i > b) else decide (i ≥ b))
 
-/-- the arguments stay within what `itertools.islice` accepts (`<= sys.maxsize`) wherever the query goes through it.
-    Outside, the generator path raises ValueError where list semantics (and the cache-complete path) do not:
-    known finding D-C12-maxsize. -/
+/-- no bound above `sys.maxsize` reaches `itertools.islice` unclamped -/
 def small : Query → Bool
   | .slice a b c => sliceListPath a b c || !(optGt a maxsize || optGt b maxsize || optGt c maxsize)
   | .take k => decide ((k : Int) ≤ maxsize)
   | _ => true
+
+/-- the query and the sequence exist in CPython: a slice bound above `sys.maxsize` is clamped to it, which is
+    the list-semantics answer because no Python sequence is longer than `sys.maxsize`; `islice(rule, k)` itself
+    needs `k ≤ sys.maxsize`.  Trivially true for every other query. -/
+def fits (q : Query) (L : List Int) : Prop :=
+  match q with
+  | .slice a b c => small (.slice a b c) = true ∨ (L.length : Int) ≤ maxsize
+  | .take k => (k : Int) ≤ maxsize
+  | _ => True
 
 /-- does the query look at `_cache_complete` (or `_len`, for `count`) before calling `iter(self)`?
     Plain iteration and `islice(rule, k)` go straight to `__iter__`. -/
